@@ -156,7 +156,7 @@ func (vc *VC) evalIdent(name string, env *SpecEnv) SV {
 	}
 	g := ghostName(name)
 	if _, ok := vc.heapSort[g]; ok && vc.ghost[g] {
-		return SV{t: vc.heapGet(env.cur, g), srt: vc.heapSort[g]}
+		return vc.ghostSV(g, env)
 	}
 	if srt, ok := vc.heapSort[name]; ok {
 		return SV{t: vc.heapGet(env.cur, name), srt: srt}
@@ -225,7 +225,7 @@ func (vc *VC) evalSelect(e *Expr, env *SpecEnv) SV {
 		if !isVar && !isBound {
 			g := ghostName(dn)
 			if _, ok := vc.heapSort[g]; ok {
-				return SV{t: vc.heapGet(env.cur, g), srt: vc.heapSort[g]}
+				return vc.ghostSV(g, env)
 			}
 			// package-qualified constant: pkg.Name
 			if env.pkg != nil && e.Args[0].Op == "ident" {
@@ -563,4 +563,11 @@ func (vc *VC) coerce(a SV, want string, env *SpecEnv) T {
 
 func (vc *VC) usePrelude(name string) {
 	vc.eng.markPrelude(vc, name)
+}
+
+func (vc *VC) ghostSV(g string, env *SpecEnv) SV {
+	if t := vc.ghostType[g]; t != nil {
+		return SV{t: vc.heapGet(env.cur, g), typ: t}
+	}
+	return SV{t: vc.heapGet(env.cur, g), srt: vc.heapSort[g]}
 }
